@@ -130,9 +130,9 @@ def shape_class(case):
 
 
 # ----------------------------------------------------------------------------- evaluation
-def make_jobs(cases, specs, churn_seed, reps=3):
+def make_jobs(cases, specs, churn_seed, reps=3, timeout=None):
     rows = sum(len(c['X']) for c in cases)
-    return [{'fn': 'alloc.cases', 'timeout': 20 + rows / 2000.0,
+    return [{'fn': 'alloc.cases', 'timeout': timeout or (20 + rows / 2000.0),
              'args': {'cases': cases, 'poison': s['poison'], 'churn_seed': churn_seed, 'reps': reps}} for s in specs]
 
 
@@ -168,7 +168,7 @@ def evaluate(pool, groups):
     of per-case verdicts (None or (cls, detail)) and raw status list."""
     jobs, owner = [], []
     for gi, g in enumerate(groups):
-        js = make_jobs(g['cases'], g['specs'], g['churn_seed'])
+        js = make_jobs(g['cases'], g['specs'], g['churn_seed'], timeout=g.get('timeout'))
         jobs += js
         owner += [gi] * len(js)
     res = pool.run(jobs)
@@ -237,6 +237,8 @@ def shrink(pool, group, cls, budget=40, wall=60.0):
         evs = evaluate(pool, gs)
         return [family((first_failure(ev) or (None,))[0]) == family(cls) for ev in evs]
 
+    # while minimising, a candidate that hangs is simply "not simpler": short wall limit per process
+    group = dict(group, timeout=8 + sum(len(c['X']) for c in group['cases']) / 20000.0)
     cur = group
     # 1. only the last case
     if len(cur['cases']) > 1:
@@ -263,7 +265,7 @@ def shrink(pool, group, cls, budget=40, wall=60.0):
             return c
         # drop row blocks
         if n > 1:
-            for parts in (2, 4, 8):
+            for parts in ((2, 4, 8) if n <= 5000 else (2,)):
                 size = max(1, n // parts)
                 for s in range(0, n, size):
                     keep = [i for i in range(n) if not (s <= i < s + size)]
@@ -384,6 +386,7 @@ def run(args):
             else:
                 group = dict(g, cases=g['cases'][:ci + 1])
             small = shrink(pool, group, cls)
+            small = {k: v for k, v in small.items() if k != 'timeout'}
             fin = first_failure(evaluate(pool, [small])[0])
             if fin is None or family(fin[0]) != family(cls):
                 small, fin = group, (cls, detail, None)
